@@ -74,9 +74,29 @@ def promote(a, b, extra=0):
     return ea, eb, True
 
 
+def _tiny(e, limit=40):
+    n = 0
+    todo = [e]
+    while todo:
+        x = todo.pop()
+        n += 1
+        if n > limit:
+            return False
+        if z3.is_app(x):
+            todo.extend(x.children())
+        elif z3.is_quantifier(x):
+            return False
+    return True
+
+
 def shrink(t):
     """drop provably redundant leading bits of constants (keeps widths small)"""
-    s = z3.simplify(t.bv)
+    if z3.is_bv_value(t.bv):
+        s = t.bv
+    elif _tiny(t.bv):
+        s = z3.simplify(t.bv)
+    else:
+        return t            # a big term is not a literal in disguise; rewriting it would only cost time
     if z3.is_bv_value(s):
         v = s.as_signed_long() if t.signed else s.as_long()
         return tv_const(v)
@@ -295,7 +315,7 @@ class FnContract:
     def __init__(self, name, regions=None, nullable=(), logical=None, requires=None, ensures=None, modifies=(), loops=None,
                  inline=False, configs=None, alloc_result=None, escapes=(), defs=None, shape=None, frees=(), ghost_updates=None,
                  abstract=False, pure=False, result_name=None, note=None, allocates=False, replay=True, lemmas=None, params=None, ret=None,
-                 cost=None):
+                 cost=None, quick=None):
         self.name = name
         self.regions = dict(regions or {})      # pointer parameter -> 'u8[expr]' | 'u32[16]' | 'struct' | 'cell' | shape object
         self.nullable = set(nullable)
@@ -318,6 +338,7 @@ class FnContract:
             self.params = list(params)     # abstract callee: parameter names
         self.ret = ret
         self.cost = cost      # seconds per configuration (planning hint for the unit splitter)
+        self.quick = quick    # names of the configurations verified in tier `quick` (all of them in `thorough`)
         self.lemmas = dict(lemmas or {})    # ghost assertions at every return: proved (locals visible), then assumed for `ensures`
 
 
@@ -643,18 +664,33 @@ class Translator:
             raise ClauseError('quantifier must range over range(a, b)')
         lo = tv_const(0) if len(it.args) == 1 else self.as_tv(self.ev(it.args[0]))
         hi = self.as_tv(self.ev(it.args[-1]))
-        # literal small ranges are expanded: the body is translated once per value (no quantifier, literal indices)
+        # literal small ranges are expanded (no quantifier, literal indices): the body is translated once with a symbolic
+        # index and instantiated by substitution; if a helper needs the literal itself, it is translated once per value
         lo_s, hi_s = shrink(lo), shrink(hi)
         if z3.is_bv_value(lo_s.bv) and z3.is_bv_value(hi_s.bv) and not lo_s.signed and not hi_s.signed:
             a, b = lo_s.bv.as_long(), hi_s.bv.as_long()
             if b - a <= 256:
-                inst = []
-                for j in range(a, b):
-                    self.bound.append({g.target.id: TV(z3.BitVecVal(j, 64), False)})
-                    try:
-                        inst.append(self.as_bool(self.ev(gen.elt)))
-                    finally:
-                        self.bound.pop()
+                inst = None
+                kk = z3.BitVec('%s!x%d' % (g.target.id, self.ctx.fresh_id()), 64)
+                self.bound.append({g.target.id: TV(kk, False)})
+                self.qvars.append(kk)
+                try:
+                    body = self.as_bool(self.ev(gen.elt))
+                    inst = [z3.substitute(body, (kk, z3.BitVecVal(j, 64))) for j in range(a, b)]
+                except ClauseError as ex:
+                    if 'literal expected' not in str(ex):
+                        raise
+                finally:
+                    self.bound.pop()
+                    self.qvars.pop()
+                if inst is None:
+                    inst = []
+                    for j in range(a, b):
+                        self.bound.append({g.target.id: TV(z3.BitVecVal(j, 64), False)})
+                        try:
+                            inst.append(self.as_bool(self.ev(gen.elt)))
+                        finally:
+                            self.bound.pop()
                 if forall:
                     return z3.And(*inst) if inst else z3.BoolVal(True)
                 return z3.Or(*inst) if inst else z3.BoolVal(False)
